@@ -3,7 +3,8 @@
 #include "ber.h"
 #include <algorithm>
 
-static const uint8_t BIASED[] = {0x00, 0x7f, 0x80, 0xff, 0x81, 0x82, 0x84, 0x1f, 0x3f, 0x20, 0x30, 0xa0, '<', '>', '/', '&', ';'};
+static const uint8_t BIASED[] = {0x00, 0x7f, 0x80, 0xff, 0x81, 0x82, 0x84, 0x1f, 0x3f, 0x20, 0x30, 0xa0, '<', '>', '/', '&', ';',
+                                 0x01, 0x02, 0x03, 0x04, 0x05, 0x07, 0x08, 0x10, 0x40, 0xc0, 0xfe};    // small lengths / counts / unused-bits octets, determinant prefixes
 
 const char *TRANSPORT_FAULTS[] = {"bitflip", "overwrite", "truncate", "drop", "dup", "swap", "insert", "lenblow", "splice", "garbage", "token", "refragment"};
 const int N_TRANSPORT_FAULTS = 12;
